@@ -470,7 +470,7 @@ impl Judge<'_> {
 /// The same gates on the same qubits with other angles: every rz/rx angle is moved by a quarter
 /// or half turn (the gate keeps its name); with `named` the fixed-angle gates T, S and their
 /// adjoints are exchanged as well.
-fn sibling(c: &HCirc, named: bool) -> HCirc {
+pub fn sibling(c: &HCirc, named: bool) -> HCirc {
     let mut o = c.clone();
     for (i, g) in o.gates.iter_mut().enumerate() {
         let shift = |n: i64, d: i64| -> (i64, i64) {
